@@ -35,6 +35,7 @@ type c18Case struct {
 	outf   string // "" | path
 	fault  *Fault
 	seed   uint64
+	stale  bool // the -f target already exists and holds a longer, older report
 }
 
 // badFmt: the -o value is not one the command documents (json is a list format only).
@@ -49,10 +50,16 @@ func (c *c18Case) badFmt() bool {
 }
 
 func (c *c18Case) fs() []FSEntry {
+	var fs []FSEntry
 	if c.files != nil {
-		return append(prefixFS("a", c.files), prefixFS("b", c.files2)...)
+		fs = append(prefixFS("a", c.files), prefixFS("b", c.files2)...)
+	} else {
+		fs = append(c.lay.fs("a", c.docs), c.lay2.fs("b", c.docs2)...)
 	}
-	return append(c.lay.fs("a", c.docs), c.lay2.fs("b", c.docs2)...)
+	if c.stale && c.outf == "out/res.txt" {
+		fs = append(fs, FSEntry{Path: "out/res.txt", Text: strings.Repeat("stale report line from an earlier run => must not survive\n", 400)})
+	}
+	return fs
 }
 
 func (c *c18Case) cliArgs() []string {
@@ -271,6 +278,7 @@ func c18Build(seed uint64, i int, corpus []CorpusDir, faulty bool) *c18Case {
 	}
 	if r.chance(1, 2) || faulty {
 		c.outf = "out/res.txt"
+		c.stale = r.chance(1, 2)
 	}
 	if faulty {
 		switch k := r.intn(6); {
